@@ -137,7 +137,7 @@ def make_cases(tier, seed):
     cases = []
     methods5 = ['central', 'forward', 'backward', 'complex', 'multicomplex']
     xs_scalar = [0.75, -3.5, [0.5, -2.0, 40.0]] if not quick else [0.75, [0.5, -40.0]]
-    orders = [1, 2, 3, 4, 6, 8] if not quick else [1, 2, 4, 6]
+    orders = [1, 2, 3, 4, 6, 8] if not quick else [1, 2, 3, 4, 6]
     for m in methods5:
         for n in range(1, 7):
             if m == 'multicomplex' and n > 2:
@@ -149,7 +149,7 @@ def make_cases(tier, seed):
     dims = [1, 2, 3, 5] if quick else [1, 2, 3, 4, 5]
     for cls in ('Gradient', 'Jacobian'):
         for m in methods5:
-            for o in ([2, 4] if quick else [1, 2, 4, 6]):
+            for o in ([2, 3, 4] if quick else [1, 2, 3, 4, 6]):
                 for dim in dims:
                     for label, skw in step_variants(rnd, m, quick)[:(2 if quick else 4)]:
                         xv = [rnd.choice([-3.0, 0.5, 2.25, 17.0, 0.0]) for _ in range(dim)]
